@@ -32,10 +32,12 @@ FILES = {
     # the same three kinds of skipped file at other positions of the (sorted) work queue: FIRST
     # and BETWEEN the files with findings — a skip must not affect the files taken after it
     "0.html": b"<script>foo(10)</script>\n",
+    # bigger than 3 MB but only two lines: NOT oversized (that needs > 3 MB AND > 200 000 lines)
+    "big.js": b"foo(11)\nlet s = '" + b"a" * 3_100_000 + b"'\n",
     "0e.js": b"", "0f.js": b"foo(8) \xff\xfe\n", "0g.js": b"foo(9)\n",
     "a5e.js": b"", "a5f.js": b"foo(8) \xff\xfe\n", "a5g.js": b"foo(9)\n",
 }
-POSITIONED_SKIPS = ["0e.js", "0f.js", "0g.js", "a5e.js", "a5f.js", "a5g.js", "0.html"]
+POSITIONED_SKIPS = ["0e.js", "0f.js", "0g.js", "a5e.js", "a5f.js", "a5g.js", "0.html", "big.js"]
 
 
 def rules_text():
@@ -144,7 +146,7 @@ def explore_config(ex, files, faults, T, style, bound, update_all=False, idx=0, 
     tree = dict(files)
     tree["r.yml"] = rules_text().encode()
     vlib.write_tree(proj, tree)
-    case_base = {"files": ({k: v.decode("latin-1") for k, v in files.items()} if len(files) < 20 else {"<burst>": f"{len(files)} files m%04d.js = foo(i)"}), "faults": sorted(faults), "threads": T, "style": style, "update_all": update_all, "run_mode": run_mode}
+    case_base = {"files": ({k: (v.decode("latin-1") if len(v) < 10000 else "<%d bytes: %s...>" % (len(v), v[:40].decode("latin-1"))) for k, v in files.items()} if len(files) < 20 else {"<burst>": f"{len(files)} files m%04d.js = foo(i)"}), "faults": sorted(faults), "threads": T, "style": style, "update_all": update_all, "run_mode": run_mode}
     if update_all:
         argv = ["scan", "-r", "r.yml", "-U", "."]
         want = None
@@ -277,7 +279,7 @@ def main(argv):
     ex = Explorer(rep, binary, root, args["tier"])
     if args["replay"]:
         case = json.load(open(args["replay"]))["case"]
-        files = {k: v.encode("latin-1") for k, v in case["files"].items()}
+        files = {k: (FILES[k] if v.startswith("<") and k in FILES else v.encode("latin-1")) for k, v in case["files"].items()}
         proj = os.path.join(root, "replay")
         os.makedirs(proj)
         tree = dict(files); tree["r.yml"] = rules_text().encode()
@@ -337,6 +339,10 @@ def main(argv):
         flt = [nm] if nm.endswith("g.js") else []
         configs.append((["a.js", "b.js", nm], flt, 1, "stream", 0, False))
         configs.append((["a.js", "b.js", nm], flt, 2, "stream", 2 if thorough else 1, False))
+    # a file above 3 MB with few lines is eligible like any other
+    configs.append((["a.js", "big.js", "b.js"], [], 1, "stream", 0, False))
+    configs.append((["a.js", "big.js", "b.js"], [], 2, "stream", 1, False))
+    configs.append((["a.js", "big.js"], [], 1, "stream", 0, "run-infer"))
     # `run -p` (no rule file): language inferred per file (html hosts js) and given with -l
     for mode in ("run-infer", "run-lang"):
         configs.append((base_files, [], 1, "stream", 0, mode))
